@@ -26,6 +26,9 @@ theorem le_trans {a b c : F} (h1 : F.le a b = true) (h2 : F.le b c = true) : F.l
 theorem lt_of_lt_of_le {a b c : F} (h1 : F.lt a b = true) (h2 : F.le b c = true) : F.lt a c = true := by
   cases a <;> cases b <;> cases c <;> simp_all [F.lt, F.le] <;> grind
 
+theorem lt_of_le_of_lt {a b c : F} (h1 : F.le a b = true) (h2 : F.lt b c = true) : F.lt a c = true := by
+  cases a <;> cases b <;> cases c <;> simp_all [F.lt, F.le] <;> grind
+
 theorem le_of_lt {a b : F} (h : F.lt a b = true) : F.le a b = true := by
   cases a <;> cases b <;> simp_all [F.lt, F.le] <;> grind
 
@@ -182,5 +185,44 @@ theorem bestOf_ge_iff (b : F × Option Pos) (l : List StepRec) (hb : b.1.isNan =
             have hgt' : F.lt b.1 t.score = false := by simpa [F.gt] using hgt
             exact F.le_trans h (F.le_of_not_lt hb hnn hgt')
           · right; exact ⟨t, e, h⟩
+
+/-- the best pair is the start pair, or the FIRST step attaining the maximum: every earlier score is strictly smaller
+    (or nan), and it strictly exceeds the start value -/
+theorem bestOf_first (b : F × Option Pos) (hb : b.1.isNan = false) (l : List StepRec) :
+    bestOf b l = b ∨
+    ∃ l1 t l2, l = l1 ++ t :: l2 ∧ bestOf b l = (t.score, some t.pos) ∧ F.lt b.1 t.score = true ∧
+      ∀ u ∈ l1, F.lt u.score t.score = true ∨ u.score.isNan = true := by
+  induction l generalizing b with
+  | nil => left; rfl
+  | cons u rest ih =>
+    simp only [bestOf]
+    by_cases hgt : F.gt u.score b.1 = true
+    · rw [if_pos hgt]
+      have hun : u.score.isNan = false := F.not_nan_of_lt_right hgt
+      rcases ih (u.score, some u.pos) hun with h | ⟨l1, t, l2, hl, hbest, hlt, hall⟩
+      · right
+        exact ⟨[], u, rest, rfl, h, hgt, by intro w hw; simp at hw⟩
+      · right
+        refine ⟨u :: l1, t, l2, by simp [hl], hbest, F.lt_trans hgt hlt, ?_⟩
+        intro w hw
+        rcases List.mem_cons.mp hw with e | e
+        · subst e; left; exact hlt
+        · exact hall w e
+    · rw [if_neg hgt]
+      rcases ih b hb with h | ⟨l1, t, l2, hl, hbest, hlt, hall⟩
+      · left; exact h
+      · right
+        refine ⟨u :: l1, t, l2, by simp [hl], hbest, hlt, ?_⟩
+        intro w hw
+        rcases List.mem_cons.mp hw with e | e
+        · subst e
+          by_cases hn : w.score.isNan = true
+          · right; exact hn
+          · left
+            have hn' : w.score.isNan = false := by simpa using hn
+            have hgt' : F.lt b.1 w.score = false := by simpa [F.gt] using hgt
+            have hle : F.le w.score b.1 = true := F.le_of_not_lt hb hn' hgt'
+            exact F.lt_of_le_of_lt hle hlt
+        · exact hall w e
 
 end GFO
